@@ -32,7 +32,7 @@ BOUNDS = {
              'history in a pristine process (fork server) against solo outcomes from pristine processes; closure '
              'search over heap fingerprints to a fixpoint (cap depth 5); repetition ladder 1,2,4,...,64 per formula for live '
              'traceback/frame counts; host-list immutability for every documented function x arity <= 2 x list-valued '
-             'argument positions + operator paths; clock: 22 date texts x 14 formulas x 2 deliveries under 4 clocks',
+             'argument positions + operator paths; clock: 26 date texts x 14 formulas x 2 deliveries under 4 clocks',
     'thorough': 'histories of length <= 3 (19 683 x 18 probes x 2 debug settings); closure cap depth 8; immutability at arity 3',
 }
 ASSUMPTIONS = ['NOW/TODAY/RAND/RANDBETWEEN are evaluated under a seam that fixes clock and random source (attributes '
@@ -892,7 +892,7 @@ class EvaluationScale(Sub):
 CLOCKS = [(2021, 6, 15, 13, 0, 0), (2024, 2, 29, 23, 59, 58), (2025, 12, 31, 0, 0, 1), (2024, 7, 31, 12, 0, 0)]
 CLOCK_TEXTS = {
     'full': ['2020-03-05', '5 March 2020', '3/5/2020 10:00', '2020-03-05T10:04:11', '29 Feb 2024', '1999-12-31 23:59:59'],
-    'no-day': ['March 2020', '2020-03', 'Feb 2023', 'April 2021', '2019-11', 'Sep 1999 10:30'],
+    'no-day': ['March 2020', '2020-03', 'Feb 2023', 'April 2021', '2019-11', 'Sep 1999 10:30', 'Jan 2021', '2024-01', 'January 2025', 'Jan 2024 08:00'],
     'time-only': ['10:04:11', '10:04', '12:00 PM', '00:00', '23:59:59', '1:30 am'],
     'no-year': ['Jan 5', '5 March', '31 Dec 10:00', 'March'],
 }
@@ -904,7 +904,7 @@ CLOCK_FORMS = ['DATEVALUE(xt)', 'xt+0', 'DAY(xt)&"/"&MONTH(xt)&"/"&YEAR(xt)&" "&
 class Clock(Sub):
     name = 'c02.clock'
     rule = ('the clock of the host is an environment answer owned by the harness (the `datetime` module as hotxlfp\'s modules and the '
-            'date parser see it): 22 texts that spell a date-time completely, without a day, or as a time of day only x 14 formulas '
+            'date parser see it): 26 texts that spell a date-time completely, without a day (also the first month of the year the clock says), or as a time of day only x 14 formulas '
             'without NOW / TODAY (text as variable and as literal) give the same outcome under 4 clocks (mid-month, 29 February '
             '23:59:58, 31 December, 31 July); text without a year may be read in the current year (as a sheet does) and must agree '
             'under the two clocks of one year; NOW() itself must follow the clock, else the seam is void; non-trivial = all')
